@@ -19,11 +19,14 @@ from sim.c01_session import decls_after, drop_var, _nest, key_arg
 ID = "C02"
 TIERS = {"quick": 40000, "thorough": 500000}
 RULE = (
-    "each run = one seeded program (<=6 variables, domain product <=1024, <=5 constraints of <=18 nodes), an answer-key "
-    "subset (none/some/all), a route (A adversarial SimBackend refute loop with model-choice policy lexmin/lexmax/uniform/"
-    "sticky/contrarian/rotate; B real z3; C Sugar-protocol peer through the five backend names; D native in-process "
-    "deduction) and 1-3 solve() calls with ensure/add_answer_key/find_answer in between; non-trivial = some solve() with "
-    ">=1 answer key whose reference model set is neither empty nor the whole domain; distinct = distinct event-log SHA-256"
+    "each run = one seeded program (<=6 variables, 15% with 7-11, 25% padded to 11-13 with singleton domains; domain "
+    "product <=1024; <=5 constraints of <=18 nodes plus puzzle-shaped templates), an answer-key subset (none/some/all, "
+    "added in one or several rounds and in several argument forms), a route (A adversarial SimBackend refute loop with "
+    "model-choice policy lexmin/lexmax/uniform/sticky/contrarian/rotate and write-order / sol-on-unsat quirks; B real z3; C "
+    "Sugar-protocol peer through the five backend names; D native in-process deduction) and 1-3 solve() calls (up to 5 in "
+    "the thorough ramp) with ensure / add_answer_key / find_answer / sol scribbles in between; non-trivial = some solve() "
+    "with >=1 answer key whose reference model set is neither empty nor the whole domain; distinct = distinct event-log "
+    "SHA-256"
 )
 STATE_MEASURE = "distinct (declarations, key set, model set) triples at solve() time"
 COMPONENTS = {
